@@ -723,6 +723,67 @@ theorem synced_follow_current_global (classes : List ClassDef) (ops : List MOp) 
   obtain ⟨cd, hcd, hs⟩ := hi.fresh j c hg hc k s hk
   exact ⟨cd, hcd, hs, fun a _ => getColor_spec (hi.confs j c hc).good a.2⟩
 
+/-- **Registration through a no-colour palette is a registration.** `P_k(conf, no_color=True)` registers the class
+(and its parent palettes) in the configuration it is called with — every time, whatever the per-class no-colour
+palette object already exists from another configuration: afterwards the class counts as registered there and every
+id of its `SYNTAX_DEFAULTS` is described. (With several configurations this is the step on the view of the
+configuration the call is aimed at, `stepM … (.on i (.pal k true))`.) -/
+theorem nocolor_palette_registers (classes : List ClassDef) (nc : Bool) (cfg : Cfg) (ops : List GOp) (g g' : GWorld)
+    (h : runAll classes nc cfg ops = .ok g) (k : Nat) (s : Snap) (cd : ClassDef) (dflt : Cfg)
+    (hcd : classes[k]? = some cd) (hdf : cd.defaults = some dflt)
+    (hp : getPaletteG classes g k true = .ok (g', s)) :
+    Src.cls k ∈ g'.w.conf.sources ∧ (∀ kv ∈ flatten dflt, (strOf g'.w.conf.map kv.1).isSome = true) ∧
+      ∀ x ∈ s, x.2.2 = [] := by
+  have hreg := (registered_class_described classes nc cfg ops g h).2 k cd dflt
+  unfold getPaletteG at hp
+  simp only [hcd, if_true] at hp
+  cases h1 : registerClassG classes (gFuel classes) g k with
+  | error e => simp [h1] at hp
+  | ok g1 =>
+    simp only [h1] at hp
+    obtain ⟨hin, hdesc⟩ := hreg g1 hcd hdf h1
+    -- the palette itself is effect-free
+    have hplain : ∀ (s0 : Snap), s0 = plainSnap cd.accessors → ∀ x ∈ s0, x.2.2 = [] := by
+      intro s0 hs0 x hx
+      subst hs0
+      simp [plainSnap] at hx
+      obtain ⟨a, b, _, rfl⟩ := hx
+      rfl
+    unfold runAll at h
+    cases h0 : newConf nc cfg with
+    | error err => simp [h0] at h
+    | ok c =>
+      simp only [h0] at h
+      obtain ⟨hgc, _, _⟩ := newConf_good (classes := classes) h0
+      have hi0 : GInv classes ⟨⟨c, []⟩, false, []⟩ :=
+        ⟨⟨hgc, fun k s hk => by simp [cacheGet] at hk⟩, fun hf => by cases hf⟩
+      obtain ⟨hi, _⟩ := runG_inv ops _ g hi0 h
+      have hi1 := hi.step (registerClassG_step _ g k g1 hi.good h1)
+      cases hc : cacheGet g1.w.ncCache k with
+      | some s0 =>
+        simp [hc] at hp
+        obtain ⟨hw, hs⟩ := hp
+        subst hw; subst hs
+        obtain ⟨cd', hcd', hs0⟩ := hi1.good.nc k s0 hc
+        rw [hcd] at hcd'; cases hcd'
+        exact ⟨hin, hdesc, hplain s0 hs0⟩
+      | none =>
+        simp [hc] at hp
+        obtain ⟨hw, hs⟩ := hp
+        subst hw; subst hs
+        exact ⟨hin, hdesc, hplain _ rfl⟩
+
+/-- **A kept `conf.get_palette()` belongs to its configuration.** Whatever an operation is aimed at — another
+configuration, a swap of the global configuration to another one, a synced palette of the global configuration —
+a configuration it is not aimed at is left exactly as it was; so `palette[id]` of a kept result of
+`get_palette()` (`keptItem`) answers from the configuration it was obtained from, not from whichever
+configuration is the global one now (and its accessor attributes are values fixed when it was built). -/
+theorem kept_palette_own_configuration (classes : List ClassDef) (m m' : MWorld) (op : MOp) (r : Option Snap) (i : Nat)
+    (c : Conf) (h : stepM classes m op = .ok (m', r)) (ht : opTarget m op ≠ some i) (hc : m.confs[i]? = some c) :
+    m'.confs[i]? = some c ∧ (∀ id, keptItem m' i id = keptItem m i id) ∧ globalPaletteOf c = snapOf c Gen.C14.gpAccessors := by
+  have := stepM_other_conf h ht hc
+  exact ⟨this, fun id => by simp [keptItem, this, hc], rfl⟩
+
 /-! Non-vacuity: concrete histories evaluated by the kernel.  `B` refers to `A` (registered later) and
 selects the terminal default foreground with `-`; `C` refers to `B`.  Before `A` is known both are
 uncoloured, afterwards `B` = ESC[44;1m (background and bold inherited, foreground default) and
